@@ -35,10 +35,10 @@ SKIPF = {"timestamp", "task_uuid", "task_level", "message_type", "action_type", 
 
 
 def plan(tier, seed):
-    n = 4000 if tier == "quick" else 100000
+    n = 20000 if tier == "quick" else 200000
     B = 100
     specs = [{"part": "format", "seed": seed, "lo": i, "hi": min(n, i + B)} for i in range(0, n, B)]
-    m = 160 if tier == "quick" else 3000
+    m = 320 if tier == "quick" else 3000
     specs += [{"part": "cli", "seed": seed, "lo": i, "hi": min(m, i + 4)} for i in range(0, m, 4)]
     f = 48 if tier == "quick" else 600
     specs += [{"part": "filter", "seed": seed, "lo": i, "hi": min(f, i + 4)} for i in range(0, f, 4)]
